@@ -60,27 +60,39 @@ static double h2d_slow(u16 b)
 static double g_h2d[65536];
 static inline double h2d(u16 b) { return g_h2d[b]; }
 
-// correctly rounded (nearest, ties to even) conversion of a binary floating value to binary16 bits
+// The rounding style the LIBRARY was configured with for this build (HALF_ROUND_STYLE: 1 to nearest = as shipped, 0 toward zero,
+// 2 toward +infinity, 3 toward -infinity).  "Correctly rounded binary16 value" is read relative to it: in a directed configuration the
+// reference is the mathematical result rounded in THAT direction (MPFR_RNDZ / RNDU / RNDD, same exponent range, same subnormalisation).
+static const int g_rs = HALF_ROUND_STYLE;
+static_assert(HALF_ROUND_STYLE == 0 || HALF_ROUND_STYLE == 1 || HALF_ROUND_STYLE == 2 || HALF_ROUND_STYLE == 3, "HALF_ROUND_STYLE 0..3");
+static const bool g_directed = (HALF_ROUND_STYLE != 1);
+static inline bool rs_away(int rs, bool neg) { return (rs == 2 && !neg) || (rs == 3 && neg); }   // directed style rounds this sign away from zero
+
+// correctly rounded conversion of a binary floating value to binary16 bits in rounding style rs (1: nearest, ties to even)
 template <class T>
-static u16 f2h(T v)
+static u16 f2h_mode(T v, int rs)
 {
     u16 s = std::signbit(v) ? 0x8000 : 0;
     if (v != v) return u16(s | 0x7E00);
     T a = std::fabs(v);
     if (a == 0) return s;
     if (std::isinf(a)) return u16(s | 0x7C00);
+    bool away = rs_away(rs, s != 0);
     int e = std::ilogb(a);
-    if (e > 15) return u16(s | 0x7C00);
+    if (e > 15) return u16(s | ((rs == 1 || away) ? 0x7C00 : 0x7BFF));   // directed toward zero: overflow stops at the largest finite half
     if (e < -14) e = -14;
     T t = std::scalbn(a, 10 - e);   // exact: scaling by a power of two, no underflow (scales up for small a)
-    T n = std::nearbyint(t);        // default rounding mode: to nearest, ties to even
+    T n = rs == 1 ? std::nearbyint(t) /* default FP environment: to nearest, ties to even */ : away ? std::ceil(t) : std::floor(t);
     unsigned long ni = (unsigned long)n;
     unsigned long r = ((unsigned long)(e + 14) << 10) + ni;   // carry of ni == 2048 moves into the exponent
-    if (r >= 0x7C00) r = 0x7C00;
+    if (r >= 0x7C00) r = 0x7C00;                              // only reachable when rounding away from zero (or to nearest)
     return u16(s | r);
 }
+template <class T> static inline u16 f2h(T v) { return f2h_mode<T>(v, g_rs); }        // in the configured style
+template <class T> static inline u16 f2h_rn(T v) { return f2h_mode<T>(v, 1); }        // to nearest (alphabet construction)
 
-// Is the value clear of every binary16 rounding boundary (midpoints between neighbouring halves, 2^-25 and 65520)?
+// Is the value clear of every binary16 rounding boundary (to nearest: midpoints between neighbouring halves, 2^-25 and 65520; directed
+// styles: the halves themselves)?
 // "Clear" means: further than 2^-26 binary16-ulp away.  A glibc result with a relative error below 2^-45 (double: < 1 ulp = 2^-52,
 // long double: 2^-63) moves by less than 2^-34 binary16-ulp, so its rounding equals the rounding of the exact value.
 template <class T>
@@ -94,7 +106,7 @@ static bool decisive(T L)
     if (e < -14) e = -14;
     T t = std::scalbn(a, 10 - e);                   // in binary16 ulps, < 2048; exact
     T fr = t - std::floor(t);
-    T d = std::fabs(fr - T(0.5));
+    T d = g_directed ? std::min(fr, T(1) - fr) : std::fabs(fr - T(0.5));
     return d > T(1) / T(67108864);                  // 2^-26
 }
 static bool ld_decisive(long double L) { return decisive<long double>(L); }
@@ -133,11 +145,11 @@ static const char* cls2(u16 b)   // coarser, for pairs
 // ------------------------------------------------------------------------------------------------
 // shared progress block, counters
 // ------------------------------------------------------------------------------------------------
-enum { C_EVAL, C_NONTRIV, C_OFF1, C_MPFR, C_FAST, C_XCHK_B, C_XCHK_C, C_XCHK_SPECIAL, C_VIOL, C_REFERR, C_CRASH, C_SANEVAL, C_EHEVAL, C_EHSNAN, C_N };
+enum { C_EVAL, C_NONTRIV, C_OFF1, C_MPFR, C_FAST, C_XCHK_B, C_XCHK_C, C_XCHK_SPECIAL, C_VIOL, C_REFERR, C_CRASH, C_SANEVAL, C_EHEVAL, C_EHSNAN, C_DIREVAL, C_N };
 static const char* cnames[C_N] = {"evaluations", "distinct_nontrivial", "results_1ulp_off_allowed", "mpfr_verdicts", "fast_reference_verdicts",
                                   "refcheck_mpfr256", "refcheck_glibc_longdouble", "refcheck_special_values_glibc_float", "violating_cases",
                                   "reference_disagreements", "crashes_or_hangs", "sanitizer_build_evaluations", "errhandling_build_evaluations",
-                                  "errhandling_build_snan_operand_gave_nan_accepted"};
+                                  "errhandling_build_snan_operand_gave_nan_accepted", "directed_rounding_build_evaluations"};
 struct Shared
 {
     volatile unsigned long long seq;
@@ -159,6 +171,7 @@ static void ref_error(const std::string& what)
 // ------------------------------------------------------------------------------------------------
 // MPFR reference
 // ------------------------------------------------------------------------------------------------
+static const mpfr_rnd_t g_rnd = g_rs == 0 ? MPFR_RNDZ : g_rs == 2 ? MPFR_RNDU : g_rs == 3 ? MPFR_RNDD : MPFR_RNDN;
 static mpfr_exp_t g_emin0, g_emax0;
 static mpfr_t mx_, my_, mr_, mw_, mt_;
 
@@ -197,6 +210,12 @@ static u16 wide2h(mpfr_t w)
         if (mpfr_cmp_d(mt_, h2d(u16(mid))) >= 0) lo = mid; else hi = mid;
     }
     // compare |w| with midpoint of val(lo), val(hi); for hi == 0x7C00 the midpoint is 65520
+    if (g_directed)
+    {
+        // directed styles: an exactly representable magnitude stays, anything else goes to hi (away from zero; 0x7C00 = infinity) or lo
+        if (mpfr_cmp_d(mt_, h2d(u16(lo))) == 0) return u16(s | lo);
+        return u16(s | (rs_away(g_rs, s != 0) ? hi : lo));
+    }
     double mid = (hi == 0x7C00) ? 65520.0 : (h2d(u16(lo)) + h2d(u16(hi))) / 2;   // exact in double
     int c = mpfr_cmp_d(mt_, mid);
     unsigned r = (c > 0) ? hi : (c < 0) ? lo : ((lo & 1) ? hi : lo);
@@ -222,8 +241,8 @@ static RefOut ref1(mp1_t f, u16 x)
     g_sh->phase = 2;
     mpfr_set_d(mx_, h2d(x), MPFR_RNDN);   // exact (NaN, inf and signed zero carried over)
     range_half();
-    int t = f(mr_, mx_, MPFR_RNDN);
-    mpfr_subnormalize(mr_, t, MPFR_RNDN);
+    int t = f(mr_, mx_, g_rnd);
+    mpfr_subnormalize(mr_, t, g_rnd);
     o.a = mp2h(mr_);
     range_wide();
     f(mw_, mx_, MPFR_RNDN);
@@ -242,8 +261,8 @@ static RefOut ref2(mp2_t f, u16 x, u16 y)
     mpfr_set_d(mx_, h2d(x), MPFR_RNDN);
     mpfr_set_d(my_, h2d(y), MPFR_RNDN);
     range_half();
-    int t = f(mr_, mx_, my_, MPFR_RNDN);
-    mpfr_subnormalize(mr_, t, MPFR_RNDN);
+    int t = f(mr_, mx_, my_, g_rnd);
+    mpfr_subnormalize(mr_, t, g_rnd);
     o.a = mp2h(mr_);
     range_wide();
     f(mw_, mx_, my_, MPFR_RNDN);
@@ -317,7 +336,15 @@ static const bool g_eh = true;
 #else
 static const bool g_eh = false;
 #endif
-static inline std::string sigroot() { return g_eh ? "C09/errhandling:" : "C09/"; }
+static const char* const rs_names[4] = {"toward-zero", "to-nearest", "toward-pos-inf", "toward-neg-inf"};
+static inline std::string flavour()   // "" for the library as shipped
+{
+    std::string f = g_directed ? std::string("round-") + rs_names[g_rs] : std::string();
+    if (g_eh) f += (f.empty() ? "" : "+") + std::string("errhandling");
+    return f;
+}
+static inline std::string sigroot() { std::string f = flavour(); return f.empty() ? "C09/" : "C09/" + f + ":"; }
+static inline std::string rs_text() { return g_directed ? std::string(" rounded ") + rs_names[g_rs] + " (the library is configured with HALF_ROUND_STYLE=" + vf::str(g_rs) + ")" : std::string(); }
 static bool g_noref = false;   // sanitizer pass: only run the implementation (ASan / UBSan-bounds / crash / hang are the oracles)
 
 // ------------------------------------------------------------------------------------------------
@@ -386,7 +413,7 @@ static void do_unary(const Unary& u, u16 x)
     {
         cnt(C_VIOL);
         vf::violation(sigroot() + u.name + "/" + cls(x) + "/" + k,
-                      std::string(u.name) + "(" + hx(x) + ") returned " + hx(r) + ", correctly rounded binary16 result (MPFR) is " + hx(o.a) +
+                      std::string(u.name) + "(" + hx(x) + ") returned " + hx(r) + ", correctly rounded binary16 result (MPFR)" + rs_text() + " is " + hx(o.a) +
                           (u.max_ulp ? " and the documented tolerance is 1 ULP" : "; the function is documented as exact to rounding"),
                       {"--one", u.name, hexs(x)});
     }
@@ -431,8 +458,9 @@ static void do_floatlike(int fi, u16 x)
         case 1: r = half_float::floor(hx_); e = ::floorf(xf); break;
         case 2: r = half_float::trunc(hx_); e = ::truncf(xf); break;
         case 3: r = half_float::round(hx_); e = ::roundf(xf); break;
-        case 4: r = half_float::rint(hx_); e = ::rintf(xf); break;
-        default: r = half_float::nearbyint(hx_); e = ::nearbyintf(xf); break;
+        // rint / nearbyint round in the current rounding direction; for a directed configuration that is trunc / ceil / floor
+        case 4: r = half_float::rint(hx_); e = g_rs == 1 ? ::rintf(xf) : g_rs == 0 ? ::truncf(xf) : g_rs == 2 ? ::ceilf(xf) : ::floorf(xf); break;
+        default: r = half_float::nearbyint(hx_); e = g_rs == 1 ? ::nearbyintf(xf) : g_rs == 0 ? ::truncf(xf) : g_rs == 2 ? ::ceilf(xf) : ::floorf(xf); break;
         }
         u16 eb = f2h<float>(e);
         nontriv = h_isfinite(x) && eb != x;
@@ -448,8 +476,8 @@ static void do_floatlike(int fi, u16 x)
         {
         case 6: r = half_float::lround(hx_); e = ::lroundf(xf); break;
         case 7: r = half_float::llround(hx_); e = ::llroundf(xf); break;
-        case 8: r = half_float::lrint(hx_); e = ::lrintf(xf); break;
-        default: r = half_float::llrint(hx_); e = ::llrintf(xf); break;
+        case 8: r = half_float::lrint(hx_); e = g_rs == 1 ? ::lrintf(xf) : (long long)(g_rs == 0 ? ::truncf(xf) : g_rs == 2 ? ::ceilf(xf) : ::floorf(xf)); break;
+        default: r = half_float::llrint(hx_); e = g_rs == 1 ? ::llrintf(xf) : (long long)(g_rs == 0 ? ::truncf(xf) : g_rs == 2 ? ::ceilf(xf) : ::floorf(xf)); break;
         }
         nontriv = (double(e) != h2d(x));
         if (r != e) fviol(fn, x, "wrong-value", vf::str(r), vf::str(e));
@@ -534,8 +562,9 @@ static std::vector<long> exp_alphabet(int which)
 static u16 ref_scale(u16 x, long e)
 {
     if (!h_isfinite(x) || h_iszero(x)) return h_isnan(x) ? u16(0x7E00) : x;
-    if (e > 60) return u16((x & 0x8000) | 0x7C00);     // 2^-24 * 2^61 > 65520
-    if (e < -60) return u16(x & 0x8000);               // 65504 * 2^-61 < 2^-25
+    bool away = rs_away(g_rs, (x & 0x8000) != 0);
+    if (e > 60) return u16((x & 0x8000) | ((g_rs == 1 || away) ? 0x7C00 : 0x7BFF));     // 2^-24 * 2^61 > 65520; directed toward zero: largest finite
+    if (e < -60) return u16((x & 0x8000) | (away ? 1 : 0));                              // 65504 * 2^-61 < 2^-25; directed away from zero: smallest subnormal
     return f2h<double>(std::ldexp(h2d(x), int(e)));    // exact product, one rounding
 }
 static void do_scale(int which, u16 x, long e)
@@ -547,7 +576,8 @@ static void do_scale(int which, u16 x, long e)
     half r = which == 0 ? half_float::ldexp(hx_, int(e)) : which == 1 ? half_float::scalbn(hx_, int(e)) : half_float::scalbln(hx_, e);
     g_sh->phase = 0;
     u16 eb = ref_scale(x, e);
-    if (fits_int)
+    if (g_directed && (e < -60 || e > 60)) { /* glibc's own result is rounded to nearest there: nothing to compare with */ }
+    else if (fits_int)
     {
         u16 ef = f2h<float>(::ldexpf(float(h2d(x)), int(e)));      // the float function, result rounded to binary16
         u16 ed = f2h<double>(std::ldexp(h2d(x), int(e)));
@@ -566,7 +596,7 @@ static void do_scale(int which, u16 x, long e)
         const char* ec = e > LONG_MAX - 64 ? "exp~LONG_MAX" : e < LONG_MIN + 64 ? "exp~LONG_MIN" : e < long(INT_MIN) ? "exp<INT_MIN" : e > long(INT_MAX) ? "exp>INT_MAX" : e == INT_MIN ? "INT_MIN" : e == INT_MAX ? "INT_MAX" :
                          e < -25 ? "exp<-25" : e < 0 ? "exp<0" : e == 0 ? "exp=0" : e <= 25 ? "exp>0" : "exp>25";
         vf::violation(sigroot() + sc_names[which] + "/" + cls(x) + "," + ec + "/wrong-value",
-                      std::string(sc_names[which]) + "(" + hx(x) + ", " + vf::str(e) + ") returned " + hx(bits(r)) + ", correctly rounded x*2^e (what " +
+                      std::string(sc_names[which]) + "(" + hx(x) + ", " + vf::str(e) + ") returned " + hx(bits(r)) + ", correctly rounded x*2^e" + rs_text() + " (what " +
                           (fits_int ? "ldexpf rounded to binary16" : "C's scalbln") + " gives) is " + hx(eb),
                       {"--one", sc_names[which], hexs(x), vf::str(e)});
     }
@@ -777,7 +807,7 @@ static void do_binary(int k, u16 x, u16 y, int mode)
     {
         cnt(C_VIOL);
         vf::violation(bsig(k, x, y, kind),
-                      std::string(bnames[k]) + "(" + hx(x) + ", " + hx(y) + ") returned " + hx(r) + ", reference " + hx(a) +
+                      std::string(bnames[k]) + "(" + hx(x) + ", " + hx(y) + ") returned " + hx(r) + ", reference" + rs_text() + " " + hx(a) +
                           (b_ulp[k] ? " (MPFR, correctly rounded; documented tolerance 1 ULP)" : " (exact / correctly rounded)"),
                       {"--one", bnames[k], hexs(x), hexs(y)});
     }
@@ -1004,7 +1034,7 @@ static inline uint64_t hmag(unsigned b)   // |value| * 2^24 for a finite pattern
 static u16 round_sqrt_u128(u128 S)        // correctly rounded binary16 of sqrt(S) * 2^-24
 {
     if (S == 0) return 0;
-    if (S >= (u128(1) << 80)) return 0x7C00;
+    if (S >= (u128(1) << 80)) return (g_rs == 1 || g_rs == 2) ? 0x7C00 : 0x7BFF;   // the result is positive: only to-nearest and toward +inf overflow
     unsigned lo = 0, hi = 0x7C00;          // invariant hmag(lo)^2 <= S < hmag(hi)^2
     while (hi - lo > 1)
     {
@@ -1012,6 +1042,7 @@ static u16 round_sqrt_u128(u128 S)        // correctly rounded binary16 of sqrt(
         uint64_t m = hmag(mid);
         if (u128(m) * m <= S) lo = mid; else hi = mid;
     }
+    if (g_directed) return u16((u128(hmag(lo)) * hmag(lo) == S || g_rs != 2) ? lo : hi);   // exact, or toward zero / -inf: lo; toward +inf: hi
     uint64_t ms = hmag(lo) + hmag(hi);     // twice the midpoint (for hi == 0x7C00: 2 * 65520 * 2^24)
     u128 l = S << 2, r = u128(ms) * ms;
     return u16(l > r ? hi : l < r ? lo : ((lo & 1) ? hi : lo));
@@ -1041,8 +1072,8 @@ static u16 ref_hypot3_mp(u16 x, u16 y, u16 z)
     inex |= mpfr_add(mw_, mw_, ms_, MPFR_RNDN);
     if (inex) ref_error("hypot3: sum of squares not exact at 256 bits for " + hx(x) + ", " + hx(y) + ", " + hx(z));
     range_half();
-    int t = mpfr_sqrt(mr_, mw_, MPFR_RNDN);
-    mpfr_subnormalize(mr_, t, MPFR_RNDN);
+    int t = mpfr_sqrt(mr_, mw_, g_rnd);
+    mpfr_subnormalize(mr_, t, g_rnd);
     u16 a = mp2h(mr_);
     range_wide();
     cnt(C_MPFR);
@@ -1114,7 +1145,7 @@ static void do_hypot3(u16 x, u16 y, u16 z, int mode)
                            std::abs(hkey(r) - hkey(a)) == 1 ? "off-by-1ulp" : "off-by-more-than-1ulp";
         cnt(C_VIOL);
         vf::violation((sigroot() + "hypot3/") + cls3(x) + "," + cls3(y) + "," + cls3(z) + "/" + kind,
-                      "hypot(" + hx(x) + ", " + hx(y) + ", " + hx(z) + ") returned " + hx(r) + ", correctly rounded sqrt(x^2+y^2+z^2) is " + hx(a) +
+                      "hypot(" + hx(x) + ", " + hx(y) + ", " + hx(z) + ") returned " + hx(r) + ", correctly rounded sqrt(x^2+y^2+z^2)" + rs_text() + " is " + hx(a) +
                           " (exact integer arithmetic, confirmed by MPFR); the function is documented as exact to rounding",
                       {"--one", "hypot3", hexs(x), hexs(y), hexs(z)});
     }
@@ -1137,7 +1168,7 @@ static std::vector<u16> alphabet0()
 }
 
 // magnitude pattern of the half nearest to |v|
-static inline u16 nearest_mag(double v) { return u16(f2h<double>(std::fabs(v)) & 0x7FFF); }
+static inline u16 nearest_mag(double v) { return u16(f2h_rn<double>(std::fabs(v)) & 0x7FFF); }   // alphabets are the same in every build
 
 // z values that make the smallest square barely matter: around 2^-k * max(|x|,|y|), and the neighbouring halves
 static void zlist_scaled(u16 x, u16 y, int k0, int k1, std::vector<u16>& out)
@@ -1326,6 +1357,361 @@ struct TiesTask : TripleTask
     }
 };
 
+// ------------------------------------------------------------------------------------------------
+// nexttoward(half from, long double to): nextafter with a direction of the widest floating type.
+// C99 7.12.11.4: "equivalent to the nextafter functions except that the second parameter has type long double and the functions
+// return y converted to the type of the function if x equals y"; F.9.8.4: no requirements beyond those on nextafter.
+// So: NaN if either is a NaN; `to` (its value is `from`; for zeros: the sign of `to`) when they compare equal; otherwise the binary16
+// value adjacent to `from` on the side of `to` - HOWEVER small the difference is and however far outside the half/float/double
+// range `to` lies.  The comparison that decides the direction is a comparison of a half with a LONG DOUBLE; every half is exact in
+// long double, so the reference compares there (exact), and a second reference compares in MPFR (64-bit significand, exact).
+//
+// Direction alphabet, for EVERY one of the 2^16 `from` patterns:
+//   absolute : +-2^k for k in NT_KS (every format boundary of binary16, binary32, binary64 and the long double format: smallest
+//              denormal, smallest normal, one binade beyond the largest finite value of the next narrower format, the epsilons), the
+//              largest finite half/float/double/long double, 65520, each of them also one long double ulp up and down; +-0, +-inf,
+//              quiet and signalling long double NaNs of both signs
+//   relative : (only for a non-NaN `from` of value v) v, -v, 2v, v/2, the neighbour of v on either side in long double, in double and
+//              in float precision, the two adjacent halves, the midpoints between v and the adjacent halves and those midpoints one
+//              long double ulp up and down.  For v = +-0 the "neighbours" are the smallest denormals of the three formats, for
+//              v = +-inf their largest finite values.
+//   halves   : every value of a half alphabet (quick: alphabet 1, thorough: all 2^16) converted exactly to long double; here the
+//              result must also equal nextafter's reference.
+// ------------------------------------------------------------------------------------------------
+typedef long double ld_t;
+static_assert(LDBL_MANT_DIG == 64 && LDBL_MAX_EXP == 16384 && sizeof(unsigned long) == 8, "this part assumes a long double wider than double (x86-64: x87 extended)");
+
+enum { C2_MERGE_D, C2_MERGE_F, C2_MERGE_H, C2_N };
+static const char* c2names[C2_N] = {"nexttoward_directions_equal_to_from_only_after_narrowing_to_double", "nexttoward_directions_equal_to_from_only_after_narrowing_to_float",
+                                    "nexttoward_other_directions_with_no_half_between_from_and_to"};
+struct Shared2 { volatile long long cnt[C2_N]; };
+static Shared2* g_sh2 = nullptr;
+
+static const int NT_KS[] = {-16445, -16444, -16383, -16382, -16381, -1076, -1075, -1074, -1073, -1023, -1022, -1021, -151, -150, -149, -148, -127, -126, -125,
+                            -64, -63, -53, -52, -26, -25, -24, -23, -15, -14, -13, -11, -10, -1, 0, 1, 10, 11, 14, 15, 16, 17, 24, 53, 64, 126, 127, 128, 129,
+                            1022, 1023, 1024, 1025, 16382, 16383};
+
+static bool ld_same_bits(ld_t a, ld_t b) { return std::memcmp(&a, &b, 10) == 0; }   // x87 extended: 10 value bytes
+static void ld_push_unique(std::vector<ld_t>& v, ld_t c, size_t from = 0)
+{
+    for (size_t i = from; i < v.size(); ++i) if (ld_same_bits(v[i], c)) return;
+    v.push_back(c);
+}
+static void ld_push3(std::vector<ld_t>& v, ld_t c, size_t from = 0)
+{
+    ld_push_unique(v, c, from);
+    ld_push_unique(v, nextafterl(c, HUGE_VALL), from);
+    ld_push_unique(v, nextafterl(c, -HUGE_VALL), from);
+}
+static std::vector<ld_t> nt_absolute()
+{
+    std::vector<ld_t> v;
+    ld_t sp[] = {0.0L, -0.0L, HUGE_VALL, -HUGE_VALL, __builtin_nanl(""), -__builtin_nanl(""), __builtin_nansl("1"), -__builtin_nansl("1")};
+    for (ld_t s : sp) ld_push_unique(v, s);
+    for (int k : NT_KS) { ld_t p = ldexpl(1.0L, k); ld_push3(v, p); ld_push3(v, -p); }       // exact, denormal range included
+    ld_t mx[] = {65504.0L, 65520.0L, (ld_t)FLT_MAX, (ld_t)DBL_MAX, LDBL_MAX};
+    for (ld_t m : mx) { ld_push3(v, m); ld_push3(v, -m); }
+    return v;
+}
+// value of the half `steps` places (+1 / -1) away from x on the ordered line of binary16 values (+-0 one point, +-inf the ends)
+static bool h_step(u16 x, int dir, ld_t& out)
+{
+    int k = hkey(x) + dir;
+    if (k > 0x7C00 || k < -0x7C00) return false;
+    out = (ld_t)h2d(u16(k >= 0 ? k : (0x8000 | -k)));
+    return true;
+}
+// directions built from the value of `from`; appended to v, duplicates (against v[base..]) dropped
+static void nt_relative(u16 x, std::vector<ld_t>& v, size_t base)
+{
+    if (h_isnan(x)) return;
+    double d = h2d(x);
+    ld_t lv = (ld_t)d;
+    float f = (float)d;
+    ld_push_unique(v, lv, base);
+    ld_push_unique(v, -lv, base);
+    ld_push_unique(v, lv * 2, base);
+    ld_push_unique(v, lv / 2, base);
+    ld_push_unique(v, nextafterl(lv, HUGE_VALL), base);
+    ld_push_unique(v, nextafterl(lv, -HUGE_VALL), base);
+    ld_push_unique(v, (ld_t)std::nextafter(d, HUGE_VAL), base);
+    ld_push_unique(v, (ld_t)std::nextafter(d, -HUGE_VAL), base);
+    ld_push_unique(v, (ld_t)nextafterf(f, HUGE_VALF), base);
+    ld_push_unique(v, (ld_t)nextafterf(f, -HUGE_VALF), base);
+    for (int dir = -1; dir <= 1; dir += 2)
+    {
+        ld_t nb;
+        if (!h_step(x, dir, nb)) continue;
+        ld_push_unique(v, nb, base);
+        if (std::isinf(nb) || std::isinf(lv)) continue;           // no midpoint with infinity (65520 is in the absolute part)
+        ld_push3(v, (lv + nb) / 2, base);                          // exact: 12 significant bits
+    }
+}
+static const int NT_NREL = 24;   // upper bound of what nt_relative appends (checked at run time)
+
+static std::string ld_arg(ld_t y)      // exact, parseable text of a long double (replay argument)
+{
+    if (y != y)
+    {
+        unsigned char b[16];
+        std::memcpy(b, &y, 10);
+        bool quiet = (b[7] & 0x40) != 0, neg = (b[9] & 0x80) != 0;
+        return std::string(neg ? "-" : "") + (quiet ? "qnan" : "snan");
+    }
+    char buf[80];
+    std::snprintf(buf, sizeof buf, "%La", y);
+    return buf;
+}
+static ld_t ld_parse(const std::string& s)
+{
+    if (s == "qnan") return __builtin_nanl("");
+    if (s == "-qnan") return -__builtin_nanl("");
+    if (s == "snan") return __builtin_nansl("1");
+    if (s == "-snan") return -__builtin_nansl("1");
+    return std::strtold(s.c_str(), nullptr);
+}
+static std::string ld_show(ld_t y)
+{
+    if (y != y) return ld_arg(y);
+    char buf[120];
+    std::snprintf(buf, sizeof buf, "%La(%.21Lg)", y, y);
+    return buf;
+}
+// is the float exactly a binary16 value (zero and infinity included)?  Decided on the bit pattern of the float.
+static bool flt_is_half(float f, u16& h)
+{
+    uint32_t u;
+    std::memcpy(&u, &f, 4);
+    uint32_t s = (u >> 16) & 0x8000, m = u & 0x7FFFFF;
+    int e = int((u >> 23) & 255);
+    if (e == 255) { h = u16(s | 0x7C00); return m == 0; }
+    if (e == 0) { h = u16(s); return m == 0; }                      // float denormals are far below 2^-24
+    int E = e - 127;
+    if (E > 15 || E < -24) return false;
+    if (E >= -14) { h = u16(s | uint32_t((E + 15) << 10) | (m >> 13)); return (m & 0x1FFF) == 0; }
+    uint32_t full = 0x800000 | m;                                   // value = full * 2^(E-23) = (full >> (-E-1)) * 2^-24
+    int sh = -E - 1;
+    h = u16(s | (full >> sh));
+    return (full & ((1u << sh) - 1)) == 0;
+}
+static bool ld_is_half(ld_t y, u16& h)   // is y exactly a binary16 value (zero and infinity included)?
+{
+    if (y != y) return false;
+    unsigned char raw[16];
+    std::memcpy(raw, &y, 10);
+    int be = ((raw[9] & 0x7F) << 8) | raw[8];
+    uint64_t mant;
+    std::memcpy(&mant, raw, 8);
+    // outside [2^-24, 2^16) and neither zero nor infinity: not a half (and no conversion that would underflow/overflow is attempted)
+    if ((be < 16383 - 24 && (be || mant)) || (be > 16383 + 15 && be != 0x7FFF)) return false;
+    float f = (float)y;
+    if ((ld_t)f != y) return false;
+    return flt_is_half(f, h);
+}
+static void nt_selftest()
+{
+    for (unsigned b = 0; b < 65536; ++b)
+    {
+        if (h_isnan(u16(b))) continue;
+        u16 h = 0xFFFF;
+        if (!ld_is_half((ld_t)h2d(u16(b)), h) || h != b) { std::fprintf(stderr, "selftest: ld_is_half fails on %04x\n", b); std::_Exit(3); }
+        ld_t up = nextafterl((ld_t)h2d(u16(b)), HUGE_VALL), fu = (ld_t)nextafterf(float(h2d(u16(b))), HUGE_VALF);
+        if ((!h_isinf(u16(b)) || (b & 0x8000)) && (ld_is_half(up, h) || (ld_is_half(fu, h) && b != 0xFBFF && !(b == 0xFC00))))
+        { std::fprintf(stderr, "selftest: ld_is_half accepts a neighbour of %04x\n", b); std::_Exit(3); }
+        if (f2h<long double>((ld_t)h2d(u16(b))) != b) { std::fprintf(stderr, "selftest: f2h<long double> fails on %04x\n", b); std::_Exit(3); }
+    }
+}
+// narrowest format that holds the direction exactly: tells which narrowing of `to` would still be harmless
+static const char* nt_dircls(ld_t y)
+{
+    if (y != y) return "nan";
+    if (std::isinf(y)) return y < 0 ? "-inf" : "+inf";
+    if (y == 0) return std::signbit(y) ? "-zero" : "+zero";
+    u16 h;
+    if (ld_is_half(y, h)) return "half-valued";
+    if ((ld_t)(float)y == y) return "float-valued";
+    if ((ld_t)(double)y == y) return "double-valued";
+    return "longdouble-only";
+}
+
+// reference A (verdict): from the definition, comparison in long double (exact: every half is a long double)
+static u16 ref_nexttoward(u16 x, ld_t y)
+{
+    if (h_isnan(x) || y != y) return 0x7E00;
+    ld_t lx = (ld_t)h2d(x);
+    if (lx == y) return h_iszero(x) ? u16(std::signbit(y) ? 0x8000 : 0) : x;   // "y converted to the type of the function"
+    if (h_iszero(x)) return u16((y < 0 ? 0x8000 : 0) | 1);
+    bool up = y > lx, neg = (x & 0x8000) != 0;
+    return (up != neg) ? u16(x + 1) : u16(x - 1);
+}
+// reference B (guards A): comparison in MPFR with a 64-bit significand (exact), stepping on the ordered line of binary16 values
+static u16 ref_nexttoward_mp(u16 x, ld_t y)
+{
+    if (h_isnan(x) || y != y) return 0x7E00;
+    static mpfr_t my64;
+    static bool init = false;
+    if (!init) { mpfr_init2(my64, LDBL_MANT_DIG); init = true; }
+    range_wide();
+    // decode the x87 extended format by hand (sign, 15-bit exponent, 64-bit significand with explicit integer bit): no hardware
+    // long double operation takes part in this reference
+    unsigned char raw[16];
+    std::memcpy(raw, &y, 10);
+    uint64_t mant;
+    std::memcpy(&mant, raw, 8);
+    int be = ((raw[9] & 0x7F) << 8) | raw[8];
+    bool yneg = (raw[9] & 0x80) != 0;
+    if (be == 0x7FFF) mpfr_set_inf(my64, yneg ? -1 : 1);           // NaNs were handled above
+    else
+    {
+        if (mpfr_set_ui_2exp(my64, mant, (be ? be : 1) - 16383 - 63, MPFR_RNDN) != 0) ref_error("nexttoward: long double " + ld_show(y) + " not exact in MPFR");
+        if (yneg) mpfr_neg(my64, my64, MPFR_RNDN);
+    }
+    int c = mpfr_cmp_d(my64, h2d(x));
+    cnt(C_MPFR);
+    if (c == 0) return h_iszero(x) ? u16(mpfr_signbit(my64) ? 0x8000 : 0) : x;
+    int k = hkey(x) + (c > 0 ? 1 : -1);
+    if (k == 0) return u16(x & 0x8000);                 // stepping onto zero keeps the sign of `from`
+    return u16(k > 0 ? k : (0x8000 | -k));
+}
+
+// use_mp: guard the verdict with the MPFR comparison; count_half: a direction that is itself a half counts as a distinct case here
+// (only in the half-valued sweeps, so that no (from, to) pair is counted twice)
+static void do_nexttoward(u16 x, ld_t y, bool use_mp, bool count_half)
+{
+    g_sh->phase = 1;
+    u16 r = bits(half_float::nexttoward(mk(x), y));
+    if (g_noref) { g_sh->phase = 0; cnt(C_SANEVAL); return; }
+    g_sh->phase = 2;
+    u16 a = ref_nexttoward(x, y);
+    u16 yh = 0;
+    bool y_half = ld_is_half(y, yh);
+    if (use_mp && !g_eh)   // the guard of the reference need not be repeated for the second build flavour (same inputs, same reference)
+    {
+        u16 b = ref_nexttoward_mp(x, y);
+        cnt(C_XCHK_B);
+        if (!same_h(a, b)) ref_error("nexttoward(" + hx(x) + ", " + ld_show(y) + "): long double comparison gives " + hx(a) + ", MPFR comparison gives " + hx(b));
+    }
+    if (y_half)
+    {
+        // a direction that is itself a half: the definition of nextafter on bit patterns must give the same
+        u16 n = ref_nextafter(x, yh);
+        if (!same_h(a, n)) ref_error("nexttoward(" + hx(x) + ", " + ld_show(y) + "): reference " + hx(a) + ", nextafter reference on the half " + hx(yh) + " gives " + hx(n));
+    }
+    if (!h_isnan(a))
+    {
+        // glibc's nexttowardf on the exactly converted operand must move the same way (class check of the reference)
+        float fx = float(h2d(x)), g = ::nexttowardf(fx, y);
+        double dr = h2d(a), dx = h2d(x);
+        cnt(C_XCHK_SPECIAL);
+        bool ok = (g == g) && ((g > fx) == (dr > dx)) && ((g < fx) == (dr < dx)) && (!(g == 0 && h_iszero(a)) || std::signbit(g) == ((a & 0x8000) != 0));
+        if (!ok) ref_error("nexttoward(" + hx(x) + ", " + ld_show(y) + "): reference " + hx(a) + " moves differently from glibc nexttowardf (" + vf::str(double(g)) + ")");
+    }
+    else
+    {
+        float g = ::nexttowardf(float(h2d(x)), y);
+        cnt(C_XCHK_SPECIAL);
+        if (g == g) ref_error("nexttoward(" + hx(x) + ", " + ld_show(y) + "): reference NaN, glibc nexttowardf gives a number");
+    }
+    g_sh->phase = 0;
+    cnt(C_EVAL);
+    bool nontriv = g_count_nontriv && (count_half || !y_half) && h_isfinite(a) && !h_iszero(a) && a != x;
+    if (nontriv) cnt(C_NONTRIV);
+    if (!g_eh && !h_isnan(a) && (ld_t)h2d(x) != y)
+    {
+        // the direction differs from `from`; would a narrower format still tell them apart?  (from = +-inf with a finite |to| beyond
+        // DBL_MAX / FLT_MAX and from = +-0 with |to| below the smallest denormal of the format are instances of the same thing)
+        ld_t lx = (ld_t)h2d(x), up = 0, dn = 0;
+        bool hu = h_step(x, 1, up), hd = h_step(x, -1, dn);
+        if ((double)y == (double)lx) g_sh2->cnt[C2_MERGE_D]++;
+        else if ((float)y == (float)lx) g_sh2->cnt[C2_MERGE_F]++;
+        else if ((!hu || y < up) && (!hd || y > dn)) g_sh2->cnt[C2_MERGE_H]++;
+    }
+    std::string kind;
+    if (!same_h(r, a))
+    {
+        ld_t nb;
+        bool other = false;
+        for (int dir = -1; dir <= 1; dir += 2)
+            if (h_step(x, dir, nb) && !h_isnan(r) && (ld_t)h2d(r) == nb && !(h_iszero(r) && h_iszero(a))) other = true;
+        kind = h_isnan(a) ? "number-for-nan" : h_isnan(r) ? "nan-for-number" : (h_iszero(a) && h_iszero(r)) ? "wrong-sign-of-zero" :
+               (r == x || (h_iszero(r) && h_iszero(x))) ? "did-not-step" : other ? "stepped-to-the-other-side" : "wrong-value";
+        cnt(C_VIOL);
+        vf::violation(sigroot() + "nexttoward/" + cls2(x) + "," + nt_dircls(y) + "/" + kind,
+                      "nexttoward(" + hx(x) + ", " + ld_show(y) + ") returned " + hx(r) + "; C's nexttoward on binary16 (NaN if either is a NaN, `to` if they compare equal, "
+                      "otherwise the binary16 value adjacent to `from` on the side of `to`, compared exactly in long double) gives " + hx(a),
+                      {"--one", "nexttoward", hexs(x), ld_arg(y)});
+    }
+    if (g_verbose) std::printf("nexttoward(%s, %s) = %s ref %s %s\n", hx(x).c_str(), ld_show(y).c_str(), hx(r).c_str(), hx(a).c_str(), kind.empty() ? "ok" : kind.c_str());
+    if (kind.empty() && ((x == 0x3C00 && ld_same_bits(y, nextafterl(1.0L, 2.0L))) || (x == 0x0000 && ld_same_bits(y, -ldexpl(1.0L, -16445))) || (x == 0x7C00 && ld_same_bits(y, LDBL_MAX))))
+        vf::sample("nexttoward(" + hx(x) + ", " + ld_show(y) + ") = " + hx(r) + " ; reference " + hx(a), 3);
+}
+
+// from in [lo, hi) x (absolute directions + directions relative to from)
+struct NtDirTask : Task
+{
+    unsigned lo = 0, hi = 0;
+    std::vector<ld_t> abs_;
+    std::vector<ld_t> dirs;            // absolute part followed by the relative part of the cached `from`
+    unsigned long long cached = ~0ULL;
+    NtDirTask() : abs_(nt_absolute()) {}
+    unsigned long long per() const { return abs_.size() + NT_NREL; }
+    unsigned long long size() const override { return (unsigned long long)(hi - lo) * per(); }
+    bool get(unsigned long long i, u16& x, ld_t& y)
+    {
+        unsigned long long f = i / per(), j = i % per();
+        x = u16(lo + f);
+        if (f != cached)
+        {
+            dirs = abs_;
+            nt_relative(x, dirs, 0);                    // a relative direction that is already in the absolute part is dropped
+            if (dirs.size() > per()) { std::fprintf(stderr, "NT_NREL too small\n"); std::_Exit(3); }
+            cached = f;
+        }
+        if (j >= dirs.size()) return false;
+        y = dirs[j];
+        return true;
+    }
+    void run(unsigned long long i) override
+    {
+        u16 x; ld_t y;
+        if (get(i, x, y)) do_nexttoward(x, y, true, false);
+    }
+    std::string describe(unsigned long long i, std::vector<std::string>& rp, std::string& sb) override
+    {
+        u16 x = 0; ld_t y = 0;
+        get(i, x, y);
+        rp = {"--one", "nexttoward", hexs(x), ld_arg(y)};
+        sb = sigroot() + "nexttoward/" + cls2(x) + "," + nt_dircls(y);
+        return "nexttoward(" + hx(x) + ", " + ld_show(y) + ")";
+    }
+};
+// from in a shard of all 2^16 patterns x directions that are halves (exactly converted)
+struct NtHalfTask : Task
+{
+    std::vector<u16> xs, ys;           // ys empty = all 65536
+    bool full = false;
+    unsigned long long ny() const { return ys.empty() ? 65536ULL : ys.size(); }
+    unsigned long long size() const override { return xs.size() * ny(); }
+    u16 X(unsigned long long i) const { return xs[i / ny()]; }
+    u16 Y(unsigned long long i) const { return ys.empty() ? u16(i % 65536) : ys[i % ny()]; }
+    static ld_t dir(u16 y) { return h_isnan(y) ? ((y & 0x8000) ? -__builtin_nanl("") : __builtin_nanl("")) : (ld_t)h2d(y); }
+    void run(unsigned long long i) override
+    {
+        u16 y = Y(i);
+        bool save = g_count_nontriv;
+        if (full && g_in_a1[y]) g_count_nontriv = false;   // already counted by the alphabet-1 sweep, which every tier runs
+        do_nexttoward(X(i), dir(y), false, true);
+        g_count_nontriv = save;
+    }
+    std::string describe(unsigned long long i, std::vector<std::string>& rp, std::string& sb) override
+    {
+        ld_t y = dir(Y(i));
+        rp = {"--one", "nexttoward", hexs(X(i)), ld_arg(y)};
+        sb = sigroot() + "nexttoward/" + cls2(X(i)) + "," + nt_dircls(y);
+        return "nexttoward(" + hx(X(i)) + ", " + ld_show(y) + ")";
+    }
+};
+
 struct OneTask : Task
 {
     std::vector<std::string> a;
@@ -1338,6 +1724,7 @@ struct OneTask : Task
         for (int i = 0; i < n_unary; ++i) if (fn == unaries[i].name) { do_unary(unaries[i], x); return; }
         for (int i = 0; i < n_fn; ++i) if (fn == fnames[i]) { do_floatlike(i, x); return; }
         for (int i = 0; i < 3; ++i) if (fn == sc_names[i]) { do_scale(i, x, std::strtol(a.at(2).c_str(), nullptr, 10)); return; }
+        if (fn == "nexttoward") { do_nexttoward(x, ld_parse(a.at(2)), true, true); return; }
         if (fn == "hypot3") { do_hypot3(x, u16(std::strtoul(a.at(2).c_str(), nullptr, 16)), u16(std::strtoul(a.at(3).c_str(), nullptr, 16)), 0); return; }
         for (int i = 0; i < B_N; ++i) if (fn == bnames[i]) { do_binary(i, x, u16(std::strtoul(a.at(2).c_str(), nullptr, 16)), 0); return; }
         std::printf("unknown function %s\n", fn.c_str());
@@ -1351,7 +1738,8 @@ struct OneTask : Task
         sb = sigroot() + a[0] + "/";
         bool binary = false;
         for (int i = 0; i < B_N; ++i) if (a[0] == bnames[i]) binary = true;
-        if (a[0] == "hypot3") sb += std::string(cls3(x)) + "," + cls3(u16(std::strtoul(a.at(2).c_str(), nullptr, 16))) + "," + cls3(u16(std::strtoul(a.at(3).c_str(), nullptr, 16)));
+        if (a[0] == "nexttoward") sb += std::string(cls2(x)) + "," + nt_dircls(ld_parse(a.at(2)));
+        else if (a[0] == "hypot3") sb += std::string(cls3(x)) + "," + cls3(u16(std::strtoul(a.at(2).c_str(), nullptr, 16))) + "," + cls3(u16(std::strtoul(a.at(3).c_str(), nullptr, 16)));
         else if (binary) sb += std::string(cls2(x)) + "," + cls2(u16(std::strtoul(a.at(2).c_str(), nullptr, 16)));
         else sb += cls(x);
         std::string w = a[0] + "(" + a[1];
@@ -1371,6 +1759,9 @@ int main(int argc, char** argv)
     g_sh = (Shared*)mmap(nullptr, sizeof(Shared), PROT_READ | PROT_WRITE, MAP_SHARED | MAP_ANONYMOUS, -1, 0);
     if (g_sh == MAP_FAILED) { std::perror("mmap"); return 3; }
     std::memset((void*)g_sh, 0, sizeof(Shared));
+    g_sh2 = (Shared2*)mmap(nullptr, sizeof(Shared2), PROT_READ | PROT_WRITE, MAP_SHARED | MAP_ANONYMOUS, -1, 0);
+    if (g_sh2 == MAP_FAILED) { std::perror("mmap"); return 3; }
+    std::memset((void*)g_sh2, 0, sizeof(Shared2));
     mp_init();
     for (unsigned b = 0; b < 65536; ++b) g_h2d[b] = h2d_slow(u16(b));
     std::vector<std::string> a(argv + 1, argv + argc);
@@ -1497,6 +1888,44 @@ int main(int argc, char** argv)
         else return 3;
         label = "hypot3/" + what + (what == "cube0" || what == "cube1" || what == "nans" ? std::string() : "/" + a.at(2));
     }
+    else if (a[0] == "--nexttoward")       // --nexttoward dirs <lo> <hi> | halves alpha1|alpha2|full <shard> <n> | list
+    {
+        const std::string& what = a.at(1);
+        nt_selftest();
+        if (what == "list")
+        {
+            std::vector<ld_t> v = nt_absolute();
+            for (ld_t y : v) std::printf("%-14s %s\n", nt_dircls(y), ld_show(y).c_str());
+            std::printf("%zu absolute directions\n", v.size());
+            for (unsigned x : {0x3C00u, 0x0000u, 0x7C00u, 0x0001u, 0xFBFFu})
+            {
+                std::vector<ld_t> r;
+                nt_relative(u16(x), r, 0);
+                std::printf("relative to %s: %zu\n", hx(u16(x)).c_str(), r.size());
+                for (ld_t y : r) std::printf("  %-14s %s\n", nt_dircls(y), ld_show(y).c_str());
+            }
+            return 0;
+        }
+        else if (what == "dirs")
+        {
+            NtDirTask t;
+            t.lo = unsigned(std::strtoul(a.at(2).c_str(), nullptr, 0));
+            t.hi = unsigned(std::strtoul(a.at(3).c_str(), nullptr, 0));
+            sweep(t);
+            if (t.lo == 0) vf::note("nexttoward: " + vf::str(t.abs_.size()) + " absolute long double directions + up to " + vf::str(NT_NREL) + " directions relative to each from (duplicates dropped)");
+        }
+        else if (what == "halves")
+        {
+            NtHalfTask t;
+            t.full = a.at(2) == "full";
+            if (!t.full) t.ys = alphabet(a.at(2) == "alpha1" ? 1 : 2);
+            unsigned shard = unsigned(std::atoi(a.at(3).c_str())), ns = unsigned(std::atoi(a.at(4).c_str()));
+            for (unsigned x = 65536u * shard / ns; x < 65536u * (shard + 1) / ns; ++x) t.xs.push_back(u16(x));
+            sweep(t);
+        }
+        else return 3;
+        label = "nexttoward/" + what + (what == "halves" ? "-" + a.at(2) : std::string());
+    }
     else if (a[0] == "--alphabet-size") { std::printf("%zu %zu\n", alphabet(1).size(), alphabet(2).size()); return 0; }
     else return 3;
 
@@ -1507,7 +1936,15 @@ int main(int argc, char** argv)
         g_sh->cnt[C_EVAL] = g_sh->cnt[C_NONTRIV] = g_sh->cnt[C_OFF1] = g_sh->cnt[C_MPFR] = g_sh->cnt[C_FAST] = 0;
         g_sh->cnt[C_XCHK_B] = g_sh->cnt[C_XCHK_C] = g_sh->cnt[C_XCHK_SPECIAL] = 0;
     }
-    if (g_eh && !g_noref)
+    if (g_directed && !g_noref)
+    {
+        // further build configurations (HALF_ROUND_STYLE 0 / 2 / 3, with or without error handling): executions of different library
+        // code against the reference rounded in the same direction; counted as evaluations, (conservatively) not again as distinct cases
+        g_sh->cnt[C_DIREVAL] = g_sh->cnt[C_EVAL];
+        g_sh->cnt[C_NONTRIV] = 0;
+        if (!label.empty()) label = flavour() + ":" + label;
+    }
+    else if (g_eh && !g_noref)
     {
         // second build configuration: the cases are executions of different library code and are counted as evaluations,
         // but (conservatively) not again as distinct non-trivial cases
@@ -1517,6 +1954,8 @@ int main(int argc, char** argv)
     }
     for (int i = 0; i < C_N; ++i)
         if (g_sh->cnt[i]) vf::stat(cnames[i], g_sh->cnt[i]);
+    for (int i = 0; i < C2_N; ++i)
+        if (g_sh2->cnt[i] && !g_eh && !g_directed) vf::stat(c2names[i], g_sh2->cnt[i]);
     if (!label.empty() && !g_noref)
     {
         vf::stat("evaluations:" + label, g_sh->cnt[C_EVAL]);
